@@ -589,7 +589,7 @@ def unionSimplify (fuel : Nat) (stk : Stack) (ours : List M) (other : M) : PyM (
 end
 
 /-- fuel for the top-level entry points (the driver reports exhaustion as its own outcome) -/
-def defaultFuel : Nat := 400
+def defaultFuel : Nat := 6000
 
 /-- `a.intersect(b)` / `a.union(b)` from a quiescent state (empty recursion stacks) -/
 def M.intersectWith (a b : M) : PyM M := mIntersect defaultFuel [] a b
